@@ -445,6 +445,11 @@ func (e *Env) eval(ex ast.Expr) (SVal, error) {
 			if e.St.Zero[keyBase(base.Loc)] {
 				return SVal{}, fmt.Errorf("field %s of fresh object never written on this path", ex.Sel.Name)
 			}
+			if base.Loc == e.Recv && e.FieldType != nil {
+				if t := e.FieldType(ex.Sel.Name); t != nil {
+					return e.X.load(e.St, base.Loc+"."+ex.Sel.Name, t, token.NoPos), nil
+				}
+			}
 		}
 		if base.K == KStruct && base.Loc != "" {
 			// lazily assembled struct: field by key
@@ -573,6 +578,9 @@ func selectorPath(ex ast.Expr) (string, bool) {
 func exprString(ex ast.Expr) string {
 	if p, ok := selectorPath(ex); ok {
 		return p
+	}
+	if bl, ok := ex.(*ast.BasicLit); ok {
+		return bl.Value
 	}
 	return fmt.Sprint(ex)
 }
@@ -923,6 +931,12 @@ func normEventName(n string) string {
 func (e *Env) resolveEventName(n string) string {
 	if a, ok := e.Alias[n]; ok {
 		return a
+	}
+	// prefix alias: `sub=NewSubscriber()` turns sub.Add into NewSubscriber().Add
+	if i := strings.Index(n, "."); i > 0 {
+		if a, ok := e.Alias[n[:i]]; ok {
+			return a + n[i:]
+		}
 	}
 	return normEventName(n)
 }
